@@ -259,3 +259,22 @@ func loadRep(dir string, as *AdaptationSet, r *Rep) (*VRep, error) {
 	}
 	return vr, nil
 }
+
+// ---- looped timeline helpers (reference model, exact integer arithmetic)
+
+// SegIdx returns (wrap, index in loop) of segment index n.
+func (r *VRep) SegIdx(n int64) (int64, int) {
+	N := int64(len(r.Segs))
+	return n / N, int(n % N)
+}
+
+// LiveStart / LiveEnd: media time of segment index n on the looped timeline.
+func (r *VRep) LiveStart(n int64) uint64 {
+	w, i := r.SegIdx(n)
+	return uint64(w)*r.LoopTicks() + r.Segs[i].Start
+}
+
+func (r *VRep) LiveEnd(n int64) uint64 {
+	w, i := r.SegIdx(n)
+	return uint64(w)*r.LoopTicks() + r.Segs[i].End
+}
